@@ -232,17 +232,22 @@ func (e *symEval) run(stmts []ast.Stmt) {
 				e.tail = stmts[i:]
 				return
 			}
-		case *ast.IfStmt:
-			// if h != nil { return h, true }
-			hx, ok := nilCompare(e.f, s.Cond, token.NEQ)
-			isHit := ok && s.Else == nil && s.Init == nil && len(s.Body.List) == 1
+		case *ast.IfStmt, *ast.SwitchStmt:
+			// if h != nil { return h, true }  (or the one-case switch form)
+			cond, body, els, isIf := asIf(st)
+			if !isIf {
+				e.tail = stmts[i:]
+				return
+			}
+			hx, ok := nilCompare(e.f, cond, token.NEQ)
+			isHit := ok && els == nil && len(body) == 1
 			if isHit {
 				if id, ok := ast.Unparen(hx).(*ast.Ident); !ok || id.Name != e.hvar {
 					isHit = false
 				}
 			}
 			if isHit {
-				rs, ok := s.Body.List[0].(*ast.ReturnStmt)
+				rs, ok := body[0].(*ast.ReturnStmt)
 				if ok && len(rs.Results) == 2 && e.f.Norm(rs.Results[1], nil) == "true" {
 					if id, ok := ast.Unparen(rs.Results[0]).(*ast.Ident); ok && id.Name == e.hvar && len(e.lookups) > 0 {
 						e.lookups[len(e.lookups)-1].onHit = true
